@@ -20,6 +20,7 @@ package storage
 
 import (
 	"strings"
+	"sync"
 	"time"
 
 	"github.com/eko/gocache/lib/v4/cache"
@@ -31,6 +32,7 @@ type redisSessionDatabase struct {
 	underlying *cache.Cache[string]
 	prefix     string
 	client     *redis.Client
+	mutex      *sync.Mutex
 }
 
 func NewRedisSessionDatabase(client *redis.Client, prefix string) SessionDatabase {
@@ -39,6 +41,7 @@ func NewRedisSessionDatabase(client *redis.Client, prefix string) SessionDatabas
 		underlying: cache.New[string](redisStore),
 		prefix:     prefix,
 		client:     client,
+		mutex:      &sync.Mutex{},
 	}
 }
 
@@ -53,6 +56,7 @@ func (s redisSessionDatabase) GetStore(ttl time.Duration, keys ...string) Sessio
 		ttl:        ttl,
 		prefixes:   prefixParts,
 		db:         s,
+		mutex:      s.mutex,
 	}
 }
 
